@@ -40,25 +40,32 @@ func genCGDoc(s Src, withMap bool) ([]CGObject, string) {
 	// names that are prefixes of each other: orderings that only agree on "easy" names must not pass. Two names
 	// of one map never produce the same Go identifier (the generator upper-cases the first letter).
 	objPool := []string{"Obj", "pod", "Pod", "POD", "podSpec", "podspec", "volume_spec", "Volume_Spec", "X", "x1", "metaData", "metadata", "MetaData", "a", "B"}
-	propPool := []string{"name", "size", "apiVersion", "apiversion", "ApiVersion", "APIVERSION", "host_path", "hostPath", "hostpath", "z", "userID", "userId", "userid", "USERID", "n", "N1"}
+	propPool := []string{"name", "Name", "size", "apiVersion", "apiversion", "ApiVersion", "APIVERSION", "host_path", "hostPath", "hostpath", "z", "Z", "userID", "userId", "userid", "USERID", "n", "N1", "burst", "Burst"}
+	// Names of one map are distinct strings; two of them may well map to the same Go identifier (the
+	// generator upper-cases the first letter): "burst" and "Burst" are two properties and need two fields.
 	pick := func(kind string, pool []string, used map[string]bool) string {
 		for try := 0; try < 8; try++ {
 			n := pool[s.Choose(kind, len(pool))]
 			if s.Choose(kind+".suffix", 3) == 2 {
 				n += fmt.Sprint(s.Choose(kind+".n", 3))
 			}
-			if !used[titleFirst(n)] {
-				used[titleFirst(n)] = true
+			if !used[n] {
+				used[n] = true
 				return n
 			}
 		}
 		n := fmt.Sprintf("%s_%d", pool[0], len(used))
-		used[titleFirst(n)] = true
+		used[n] = true
 		return n
 	}
 	usedObj := map[string]bool{}
+	usedTitle := map[string]bool{}
 	for i := 0; i < no; i++ {
 		o := CGObject{ID: pick("cg.oname", objPool, usedObj)}
+		for usedTitle[titleFirst(o.ID)] {
+			o.ID += "x"
+		}
+		usedTitle[titleFirst(o.ID)] = true
 		np := s.Choose("cg.nprop", 7)
 		usedProp := map[string]bool{}
 		for j := 0; j < np; j++ {
@@ -246,7 +253,7 @@ func (codegenEngine) Run(t *testing.T, batch string, tape *rt.Tape, runIdx uint6
 					add("mismatch", "output-does-not-parse", perr.Error())
 					break
 				}
-				got := map[string]map[string][2]string{}
+				got := map[string][]string{}
 				dupStruct := ""
 				for _, d := range file.Decls {
 					gd, ok := d.(*ast.GenDecl)
@@ -262,7 +269,7 @@ func (codegenEngine) Run(t *testing.T, batch string, tape *rt.Tape, runIdx uint6
 						if _, dup := got[ts.Name.Name]; dup {
 							dupStruct = ts.Name.Name
 						}
-						fields := map[string][2]string{}
+						var fields []string
 						for _, fl := range st.Fields.List {
 							typ := ""
 							if id, ok := fl.Type.(*ast.Ident); ok {
@@ -273,7 +280,7 @@ func (codegenEngine) Run(t *testing.T, batch string, tape *rt.Tape, runIdx uint6
 								tag = fl.Tag.Value
 							}
 							for _, n := range fl.Names {
-								fields[n.Name] = [2]string{typ, tag}
+								fields = append(fields, n.Name+" "+typ+" "+tag)
 							}
 						}
 						got[ts.Name.Name] = fields
@@ -282,14 +289,14 @@ func (codegenEngine) Run(t *testing.T, batch string, tape *rt.Tape, runIdx uint6
 				if dupStruct != "" {
 					add("mismatch", "struct-emitted-twice", dupStruct)
 				}
-				want := map[string]map[string][2]string{}
+				want := map[string][]string{}
 				for _, o := range objs {
 					if f.ignore != nil && o.ID == *f.ignore {
 						continue
 					}
-					fields := map[string][2]string{}
+					fields := []string{}
 					for _, p := range o.Props {
-						fields[titleFirst(p.Name)] = [2]string{cgGoType(p), "`json:\"" + p.Name + "\"`"}
+						fields = append(fields, titleFirst(p.Name)+" "+cgGoType(p)+" `json:\""+p.Name+"\"`")
 					}
 					want[titleFirst(o.ID)] = fields
 				}
@@ -326,13 +333,10 @@ func (codegenEngine) Run(t *testing.T, batch string, tape *rt.Tape, runIdx uint6
 	return rec
 }
 
-func sortedStructs(m map[string]map[string][2]string) []string {
+func sortedStructs(m map[string][]string) []string {
 	var out []string
 	for n, fs := range m {
-		var fl []string
-		for f, tt := range fs {
-			fl = append(fl, f+" "+tt[0]+" "+tt[1])
-		}
+		fl := append([]string(nil), fs...)
 		sort.Strings(fl)
 		out = append(out, n+"{"+strings.Join(fl, "; ")+"}")
 	}
